@@ -473,8 +473,9 @@ def replay(path):
     if not case:
         print(json.dumps(rep, indent=1)[:4000])
         return 0
-    import framework
-    chk = framework.Check("C08", "quick", 1)
+    class _Scratch:      # own scratch directory: a replay must not wipe the work directory of a running check
+        work = C.work_dir("C08_replay")
+    chk = _Scratch()
     binp, err, info = build_conc_probe()
     if binp is None:
         print(err)
